@@ -21,6 +21,16 @@ CHECKS = {
    "Every ordered pair of a depth<=3 universe with multi-byte and mutually-extending names is checked against whole-component containment; generated trees are backed up and every entry (plus absent paths) is used as the subtree for listing, every directory for restoring, compared with the filtered full listing / full restore.",
    "Containment oracle trusted; restoring a single nested file by path is outside the property and not exercised.",
    "DESIGN.md 5 C12"),
+ "C02": ("exploration",
+   "model-based stateful property test: generated operation histories interpreted against a version model, every surviving version restored and compared after every step (proptest vec-of-ops + interpreter, shrinking)",
+   "Histories of mutate / backup(options) / interrupted backup / delete(subset) / gc are generated and shrunk as one value; the model remembers the source tree of each completed version and after every step every surviving complete version is restored by id, plus 'latest', and compared byte- and metadata-exact. Exploration: the history space is unbounded; the oracle per step is exact.",
+   "Interruption = storage frozen at an operation boundary via the verif_hooks interceptor; content edits always change mtime or size.",
+   "DESIGN.md 5 C02"),
+ "C13": ("exploration",
+   "property-based differential decoding: after every mutating operation of generated single backups and histories an independent reader of the 0.6 format (serde_json + snap + blake2) checks every documented invariant against the model",
+   "The independent decoder shares no code with conserve's reader; it is run after every backup, interrupted backup, delete and gc of generated histories and single (options, tree) backups, and the address lengths are compared with the model's file sizes.",
+   "Zero-length leftovers of the torn-write interruption are skipped as the documented exception.",
+   "DESIGN.md 5 C13"),
 }
 
 NOT_BUILT_REASON = "check not built yet in this session (planned, see DESIGN.md section 5); not claimed until its command exists and is silent on the unchanged tree"
